@@ -163,6 +163,44 @@ Section CacheProofs.
     apply summaries_spec. exact G.
   Qed.
 
+
+  (* ---- C20: an interrupted run *)
+  (* whatever part of a build dir survives (entries can only disappear) keeps the invariant *)
+  Lemma Inv_drop bd bdc :
+    Inv bd -> (forall af, bd_get bdc af = None \/ bd_get bdc af = bd_get bd af) -> Inv bdc.
+  Proof.
+    intros HI Hs af k ms ss G. destruct (Hs af) as [E|E]; rewrite E in G; [discriminate|]. eapply HI; eauto.
+  Qed.
+
+  (* the files an interrupted run got through, in any order and any number *)
+  Lemma fold_run_file_Inv o fs ftxt : forall ps bd rep,
+    Inv bd -> Forall (fun p => D (keydata o (view o fs p))) ps ->
+    Inv (fst (fold_left (run_file o fs ftxt) ps (bd, rep))).
+  Proof.
+    induction ps as [|p ps IH]; intros bd rep HI HD; [exact HI|].
+    cbn [fold_left]. destruct (run_file o fs ftxt (bd, rep) p) as [bd1 rep1] eqn:E1.
+    inversion HD as [|? ? HDp HDr]; subst.
+    destruct (run_file_spec _ _ _ _ _ _ _ _ HI HDp E1) as (_ & I1 & _). apply IH; assumption.
+  Qed.
+
+  (* A run is killed after it has been through the files `done` (any subset, any order:
+     several jobs) with files.txt `ftxt`; of the resulting cache files an arbitrary part
+     survives as loadable (the others are truncated: XmlProofs.proper_prefix_rejected,
+     or missing).  The next complete run reports what a run without a build dir reports. *)
+  Theorem crash_then_complete o1 fs1 ftxt1 done bd bdc o fs files bd' rep :
+    Inv bd -> Forall (fun p => D (keydata o1 (view o1 fs1 p))) done ->
+    (forall af, bd_get bdc af = None \/
+                bd_get bdc af = bd_get (fst (fold_left (run_file o1 fs1 ftxt1) done (bd, []))) af) ->
+    Forall (fun p => D (keydata o (view o fs p))) files -> lookup_okb lm files = true ->
+    run o fs files bdc = (bd', rep) ->
+    rep = fresh o fs files /\ Inv bd'.
+  Proof.
+    intros HI HD1 Hs HD OK E.
+    assert (Inv bdc) as HIc.
+    { eapply Inv_drop; [|exact Hs]. apply fold_run_file_Inv; assumption. }
+    exact (run_transparent o fs files bdc bd' rep HIc HD OK E).
+  Qed.
+
   Definition keys_in_D (h : list (step opts content)) (fs : fsys content) : Prop :=
     Forall D (keys_of h fs).
 
